@@ -57,7 +57,7 @@ def showRes : Res → String
 
 def parseRes : String → Option Res
   | "ok" => some .ok | "err" => some .err | "closed" => some .closedErr | "panic" => some .panic
-  | "crash" => some .crash | _ => none
+  | "crash" => some .crash | "deadlock" => some .deadlock | _ => none
 
 def showProt : Prot → String | .none => "none" | .ro => "ro" | .rw => "rw"
 def parseProt : String → Option Prot
